@@ -224,7 +224,7 @@ static void cadence_after_complete_tick (void) {
     int ref = m->last_call >= m->run_start ? m->last_call : m->run_start - 1;
     if (m->called_this_tick) {
       if (m->last_call >= m->run_start && tickno - m->last_call != m->n)
-        fail_hist ("C11:called-too-early", "O%d (interval %d) called in tick %d, previous call in tick %d of the same run", i, m->n, tickno, m->last_call);
+        fail_hist ("C11:wrong-spacing", "O%d (interval %d) called in tick %d, previous call in tick %d of the same run of complete ticks", i, m->n, tickno, m->last_call);
       m->last_call = tickno;
     } else if (tickno - ref >= m->n)
       fail_hist ("C11:heart-beat-missed", "O%d (interval %d, enabled since before tick %d) not called in complete tick %d (last call in run: %d)", i, m->n, m->run_start, tickno, m->last_call);
